@@ -1,7 +1,9 @@
 """C16 — the proxy tracks backend topology and heals lost backend connections.
 
-Specs: Topology.tla (fault sequences over node add / remove / unlist / stop / start / restart / connection drops
-(pooled, control, all at once) / heartbeat silence with the expected converged routing set after every fault) and
+Specs: Topology.tla (the select loop of Cluster.stayConnected - event debouncing with the refresh timer, refresh,
+control-connection fail-over - against an environment applying node add / remove / unlist / stop / start / restart /
+connection drops (pooled, control, all at once) / heartbeat silence; invariant: a quiescent proxy routes exactly to the
+listed live nodes; liveness: it settles) and
 Backoff.tla (the reconnect delay table with its bounds).  Binding: every TLC-exported fault sequence (a seeded
 sample in quick tier) is applied to the real proxy (refresh window shortened to 100 ms through the verif hook); after
 every fault the set of nodes that receive requests must converge to the expected set, a control connection must
@@ -31,7 +33,16 @@ def run(ctx):
     behs = list(dict.fromkeys(rows(res.output, "BEH")))
     if len(behs) < 50:
         raise core.Inconclusive("TLC exported too few fault sequences (%d)" % len(behs))
-    chosen = rnd.sample(behs, min(len(behs), 180 if t else 22))
+    # the fault sequences that separate a correct cluster loop from one with a known hazard (the model with the hazard
+    # switch on fails to converge after them) are replayed first, the rest of the budget is a seeded sample
+    hres = ctx.tlc("Topology", "Topology_hazard.cfg", workers=4, timeout=900, count=False, name="topology-hazard")
+    haz = list(dict.fromkeys(rows(hres.output, "HAZ")))
+    if len(haz) < 5:
+        raise core.Inconclusive("the hazard model produced too few discriminating fault sequences (%d)" % len(haz))
+    rnd.shuffle(haz)
+    hsel = haz if t else haz[:8]
+    rest = [b for b in behs if b not in set(hsel)]
+    chosen = hsel + rnd.sample(rest, min(len(rest), 180 if t else 16))
     # make sure every fault kind occurs in the sample
     kinds = set()
     for b in chosen:
@@ -84,6 +95,9 @@ def run(ctx):
         "samples": r.get("samples") or [],
         "fault_sequences_exported": len(behs),
         "fault_sequences_replayed": r["behaviours"],
+        "hazard_discriminating_sequences": len(haz),
+        "hazard_discriminating_sequences_replayed": len(hsel),
+        "fault_steps_applied_before_the_proxy_settled": r.get("rushed_steps", 0),
         "fault_kinds_in_sample": sorted(kinds),
         "fault_steps": r["steps"],
         "probes": r["probes"],
